@@ -184,6 +184,8 @@ def run_native(ctx, name):
         res["problems"].append(dict(n=0, what="native/%s did not run" % name, detail=(o + e)[-1500:]))
         return res
     j = json.load(open(out))
+    if name == "hasher":
+        res["summary"] = dict(sessions=len(j.get("types", [])))
     if name == "janitor":
         n = 0
         for c in j.get("cases", []):
@@ -197,7 +199,76 @@ def run_native(ctx, name):
     res["raw"] = j
     return res
 
-CHECKS = {"C01": check_C01, "C12": check_C12, "C09": check_C09, "C06": check_C06, "C07": check_C07,
+def table_part(ctx, pid, cov, n_cases, broken_proofs):
+    """CORR-table-seq: Go Map/MapOf vs extracted TableModel, results and layouts"""
+    from . import tabseq
+    exe_model, mlog = ctx.ocaml()
+    d, exes, glog = ctx.go_seq()
+    cov["correspondence"] = cov.get("correspondence", "") + " CORR-table-seq"
+    if not exe_model or not exes.get("veriftab"):
+        ctx.violation("build", dict(broken=["CORR-table-seq (does not build)"], log=(mlog + glog)[-1500:]), failing_input=False)
+        return None
+    tab = exe_model.replace("modelrun", "tabrun")
+    stats = {}
+    cases = tabseq.gen_cases(ctx.seed, n_cases, stats=stats)
+    mism, impl, model = tabseq.check(exes["veriftab"], tab, cases)
+    cov["table_cases"] = len(cases)
+    cov["table_calls"] = sum(len(o) for h, o in cases)
+    cov["table_input_distribution"] = stats
+    cov["traces_validated_against_impl"] = cov.get("traces_validated_against_impl", 0) + len(cases)
+    cov.setdefault("samples", []).append("\n".join(cases[0][0] + cases[0][1][:25] + ["..."]))
+    cov["table_model_impl_disagreements"] = len(mism)
+    def is_result(m):      # a call's answer differs (the model's answers ARE the builtin map's, by C11)
+        return m["op"].startswith("OP") and m["op"].split()[1] not in ("layout",)
+    for m in mism[:3]:
+        small = tabseq.shrink(exes["veriftab"], tab, cases[m["case"]], pred=(is_result if is_result(m) else None))
+        mm, _, _ = tabseq.check(exes["veriftab"], tab, [small])
+        first = mm[0] if mm else m
+        ctx.violation("tab-%d" % m["case"],
+                      dict(correspondence="CORR-table-seq", failing_op=first["op"], observed=first["impl"], model=first["model"],
+                           case=small[0] + small[1] + ["END"],
+                           check="answers of the model are those of a builtin map (theorem C11_layout_independent); a differing answer of the implementation is a wrong answer",
+                           how_to_replay="bin/check %s --replay <this file>" % pid),
+                      failing_input=is_result(first),
+                      what=("answer differs from a builtin map's" if is_result(first) else "physical layout differs from the model's (answers agree): the model no longer describes the code"))
+    if broken_proofs and not ctx.violations:
+        ctx.violation("proof", dict(broken=broken_proofs), failing_input=False, what="proof obligation no longer checks")
+    return dict(mism=mism, cases=cases)
+
+def check_C11():
+    ctx = Ctx("C11"); cov = {}
+    broken = proof_part(ctx, "props/C11.v", ["proofs/C11_lists.v", "proofs/C11_table.v", "proofs/C11_idx.v"], cov)
+    table_part(ctx, "C11", cov, N(ctx, 160, 2500), broken)
+    cov["rule"] = ("cases: Map, MapOf[string,any], MapOf[int,int64] with default and adversarial hashers (constant, same index, same h2, pairwise tag collisions), size hints {<0,0,1,96,97,160,161,300,1000}, "
+                   "phases of bulk inserts / bulk deletes (crossing grow and shrink thresholds, up to thousands of keys), clears, deleting Computes on absent keys over every slot-occupancy pattern; "
+                   "every answer AND the physical layout (table length, chains, slots, tags, counter) compared with the extracted TableModel fed with the seeds and hashes observed on the Go side")
+    return ctx.finish(cov, ["the hash function and the seed stream are parameters of the theorem; the executable instance replays the values observed on the implementation",
+                            "the theorem is conditional on the grow-retry loop ending within the fuel (64 doublings); the driver reports OUT-OF-FUEL otherwise (never observed)"])
+
+def check_C10():
+    ctx = Ctx("C10"); cov = {}
+    broken = proof_part(ctx, "props/C10.v", ["proofs/C11_lists.v", "proofs/C11_table.v"], cov)
+    table_part(ctx, "C10", cov, N(ctx, 80, 800), broken)
+    native = run_native(ctx, "hasher")
+    j = native.get("raw", {})
+    bad = [t for t in j.get("types", []) if t.get("n_mismatches") or t.get("n_panics")]
+    cov["hasher_catalogue_sessions"] = len(j.get("types", []))
+    cov["hasher_catalogue_failing_sessions"] = len(bad)
+    for prob in native.get("problems", []):
+        ctx.violation("hasher-run", dict(check="native/hasher", observed=prob["detail"]), failing_input=False, what=prob["what"])
+    for n, t in enumerate(bad[:6]):
+        iface = t.get("type", "").startswith("any") or "interface" in t.get("type", "")
+        ctx.violation("hasher-%d" % n,
+                      dict(check="native/hasher: MapOf/CacheOf against a builtin map over the key-type catalogue",
+                           failing_op="%s[%s]" % (t.get("container"), t.get("type")),
+                           observed=dict(mismatches=t.get("mismatches"), panics=t.get("panics"),
+                                         mismatch_key_types=t.get("mismatch_key_types"), panic_key_types=t.get("panic_key_types")),
+                           **{"class": "interface-kinded K with pointer-shaped or nil dynamic value" if iface else "other"}),
+                      failing_input=True, what="keys not matched by == / panic for key type %s" % t.get("type"))
+    cov["rule"] = "theorem for every key type and every hasher that is a function of the key; the hypothesis about the Go default hasher is checked over a catalogue of every comparable kind against a builtin map (native/hasher), incl. +-0, padding garbage, distinct string headers, interface-typed keys, mutation of pointees"
+    return ctx.finish(cov, ["PARTIAL: that runtime.typehash-based defaultHasher is a function of the key's ==-class is checked by correspondence over the catalogue, not proved"])
+
+CHECKS = {"C10": check_C10, "C11": check_C11, "C01": check_C01, "C12": check_C12, "C09": check_C09, "C06": check_C06, "C07": check_C07,
           "C08": check_C08, "C15": check_C15}
 
 def replay(pid, path):
